@@ -266,9 +266,31 @@ def rule_structural_discharges(ctx):
     for fn, allowed in (("tau_star::construct_total_function_formula", {"Add", "Subtract", "Multiply"}), ("tau_star::construct_partial_function_formula", {"Divide", "Modulo"})):
         cs = [c for b in fx.body_list for c in hq.calls(b["body"], fn)]
         got = []
-        for c in cs:
-            k = hq.const_of(c["args"][2])
-            got.append(k[2] if k and k[0] == "variant" else None)
+        pat_variants_ = __import__("rules.facts", fromlist=["pat_variants"]).pat_variants
+        for bb in fx.body_list:
+            mine = hq.calls(bb["body"], fn)
+            if not mine:
+                continue
+            pm = hq.parent_map(bb["body"])
+            for c in mine:
+                k = hq.const_of(c["args"][2])
+                if k and k[0] == "variant":
+                    got.append(k[2])
+                    continue
+                # the operator handed on is the one an enclosing `match op { A | B => f(.., op) }` has just matched: one value per alternative
+                want_src = hq.render(strip(c["args"][2])).lstrip("*&")
+                cur, alts = c, None
+                for _ in range(40):
+                    par = pm.get(id(cur))
+                    if par is None:
+                        break
+                    if par.get("k") == "Match" and hq.render(strip(par["scrut"])).lstrip("*&") == want_src:
+                        arm = [a for a in par["arms"] if a is cur or a["body"] is cur or any(x is cur for x in walk(a["body"]))]
+                        if arm:
+                            alts = sorted({v for q in hq.or_alternatives(arm[0]["pat"]) for _, v in pat_variants_(q)})
+                        break
+                    cur = par
+                got += alts if alts else [None]
         b = fx.fn(fn)
         handled = set()
         for m in hq.matches_over(b["body"], "syntax_tree::asp::mini_gringo::BinaryOperator"):
